@@ -122,6 +122,24 @@ theorem mergeKeys_base (p : PSt) (d m : Nat) (keys : List (Nat × Nat)) :
       · simp [XOp.isBase]
       · exact ih _ e he
 
+theorem tickStep_base (p : PSt) (s j : Nat) : AllBase (p.tickStep .repaired s j).2 := by
+  simp only [PSt.tickStep]
+  split
+  · intro e he; simp at he
+  · exact emit_base _ _ _ _
+
+theorem dlStep_base (p : PSt) (m : Nat) : AllBase (p.dlStep .repaired m).2 := by
+  simp only [PSt.dlStep]
+  split
+  · intro e he; simp at he
+  · split
+    · intro e he
+      simp only [List.mem_append] at he
+      rcases he with he | he
+      · exact mergeKeys_base _ _ _ _ e he
+      · exact emit_base _ _ _ _ e he
+    · exact mergeKeys_base _ _ _ _
+
 theorem step_base (kind : Kind) (p : PSt) (x : SStep) : AllBase (p.step .repaired kind x).2 := by
   cases x with
   | w s key op =>
@@ -133,22 +151,17 @@ theorem step_base (kind : Kind) (p : PSt) (x : SStep) : AllBase (p.step .repaire
       subst he
       exact wop_base _ _ _ _ _ hy
     · simp at he
-  | tick s j =>
-    simp only [PSt.step]
-    split
-    · intro e he; simp at he
-    · exact emit_base _ _ _ _
-  | dl m =>
-    simp only [PSt.step]
-    split
-    · intro e he; simp at he
-    · split
-      · intro e he
-        simp only [List.mem_append] at he
-        rcases he with he | he
-        · exact mergeKeys_base _ _ _ _ e he
-        · exact emit_base _ _ _ _ e he
-      · exact mergeKeys_base _ _ _ _
+  | tick s j => exact tickStep_base p s j
+  | dl m => exact dlStep_base p m
+  | round s j =>
+    intro e he
+    simp only [PSt.step, List.mem_append] at he
+    rcases he with (he | he) | he
+    · exact tickStep_base _ _ _ e he
+    · exact dlStep_base _ _ e he
+    · split at he
+      · exact dlStep_base _ _ e he
+      · simp at he
 
 theorem ops_base (kind : Kind) (p : PSt) (steps : List SStep) :
     AllBase (PSt.ops .repaired kind p steps) := by
